@@ -17,9 +17,9 @@ W_ENTRY = PC + "decompress_deflate_stream"
 R_ENTRY = PC + "recompress_deflate_stream"
 
 
-def m1(F, rep, rule="M1", wentry=W_ENTRY, rentry=R_ENTRY, floors=True):
-    W = proto.Machine(F, alpha.CorrectionStream("w"), "w")
-    R = proto.Machine(F, alpha.CorrectionStream("r"), "r")
+def m1(F, rep, rule="M1", wentry=W_ENTRY, rentry=R_ENTRY, floors=True, state=False):
+    W = proto.Machine(F, alpha.CorrectionStream("w", state=state), "w")
+    R = proto.Machine(F, alpha.CorrectionStream("r", state=state), "r")
     res = proto.check(W, wentry, R, rentry, alpha.match_correction)
     for where, why in W.unrecognised + R.unrecognised:
         rep.add(rule, "UNRECOGNISED-IDIOM:%s" % why[:60], False, str(where), why)
@@ -57,6 +57,14 @@ def m1(F, rep, rule="M1", wentry=W_ENTRY, rentry=R_ENTRY, floors=True):
     return res, W, R
 
 
+def m1s(F, rep, rule):
+    res, W, R = m1(F, rep, rule=rule, floors=False, state=True)
+    if not res["violations"]:
+        rep.floor(rule, "state-mutation-kinds-writer", len({l[1] for l in res["wlabels"] if l[0] == "st"}), 5)
+        rep.floor(rule, "state-mutation-kinds-reader", len({l[1] for l in res["rlabels"] if l[0] == "st"}), 5)
+    return res
+
+
 def run(ctx, rep):
     F = ctx.lib
     rep.explanation = (
@@ -69,6 +77,10 @@ def run(ctx, rep):
     rep.trusted = ["Ok/Err and constant propagation of the abstract interpreter (pfa/proto.py) over-approximates writer paths",
                    "trait-method calls on the codec are the only way to touch the correction stream (type system)"]
     m1(F, rep)
+    # M1s: the same inclusion with every mutation of the shared predictor state (update_hash, advance, predict_token,
+    # repredict_reference, commit_token — with their constant arguments) as additional events: analysis and
+    # reconstruction must drive the predictor with the same operations at the same points of the correction stream
+    m1s(F, rep, "M1s")
     _m2_m3(F, rep)
     from . import sib
     sib.m4(F, rep)
